@@ -1,6 +1,6 @@
 /-
-  F. connect-token entry table: generated `NetcodeServer::find_or_add_connect_token_entry` (struct view: only
-  `connect_token_entries`) agrees with `Netcode.NetcodeServer.findOrAddConnectTokenEntry`.
+  F. connect-token entry table: generated `NetcodeServer::find_or_add_connect_token_entry` (only the field
+  `connect_token_entries` of `base` changes) agrees with `Netcode.NetcodeServer.findOrAddConnectTokenEntry`.
   Headline statements in `Props/SrcTieTokenTable.lean`.
 -/
 import RenetVerif.Generated.Src.TokenTable
@@ -15,7 +15,10 @@ open Src.renetcode.server
 abbrev MEntry := Netcode.ConnectTokenEntry
 
 def reprEntry (e : MEntry) : ConnectTokenEntry := ⟨e.time, reprAddr e.address, toNats e.mac⟩
-def reprTable (l : List (Option MEntry)) : NetcodeServer := ⟨l.map (Option.map reprEntry)⟩
+/-- `base` with this entry table -/
+def reprTable (base : NetcodeServer) (l : List (Option MEntry)) : NetcodeServer :=
+  { base with connect_token_entries := l.map (Option.map reprEntry) }
+variable {base : NetcodeServer}
 
 /-- the loop state `(empty_entry, matching_entry, min, oldest_entry)` of the generated code -/
 def reprScan (st : Netcode.NetcodeServer.EntryScan) : Bool × Option ConnectTokenEntry × Nat × Nat :=
@@ -79,11 +82,11 @@ theorem scan_oldest (mac : Bytes) : ∀ (l : List (Option MEntry)) (i : Nat) (st
       · right; omega
 
 theorem find_or_add_eq {ε : Type} (l : List (Option MEntry)) (ne : MEntry) (hl : 0 < l.length) :
-    (NetcodeServer.find_or_add_connect_token_entry (reprTable l) (reprEntry ne) : Res ε _) =
+    (NetcodeServer.find_or_add_connect_token_entry (reprTable base l) (reprEntry ne) : Res ε _) =
       (let st := Netcode.NetcodeServer.scanEntries ne.mac l 0 ⟨Netcode.DURATION_MAX, 0, false, none⟩
        match st.matchingEntry with
-       | some e => .ok (reprTable l, decide (e.address = ne.address))
-       | none => .ok (reprTable (l.set st.oldestEntry (some ne)), true)) := by
+       | some e => .ok (reprTable base l, decide (e.address = ne.address))
+       | none => .ok (reprTable base (l.set st.oldestEntry (some ne)), true)) := by
   unfold NetcodeServer.find_or_add_connect_token_entry
   simp only [Exec.bind_eq, Exec.pure_eq, RustSem.enumerate, reprTable]
   have h0 : ((false, none, RustSem.Duration.MAX, 0) : Bool × Option ConnectTokenEntry × Nat × Nat)
